@@ -65,6 +65,17 @@ def _call(rng, profile):
         return j
     j = workload.random_job(rng, profile, world_p=0.0, overrides_p=0.25, horizon=rng.pick([48, 72, 96, 120]))
     n = rng.pick([1, 1, 1, 2, 2, 3, 4])
+    if rng.chance(0.15):
+        # bias towards the branch the code special-cases: a "known to fail" country with the options that
+        # trigger its scenario rewrite, in one call (one shared option dictionary) with other countries
+        j["iso3"] = rng.pick(["SLV", "ALB", "SLV", "ALB", "ECU"])
+        o = j["options"]
+        o.update(cull="do_eat_culled", scenario=rng.pick(["all_resilient_foods", "seaweed"]),
+                 shutoff=rng.pick(["continued", "long_delayed_shutoff", "short_delayed_shutoff"]))
+        if j["iso3"] == "ECU":
+            o.update(shutoff="long_delayed_shutoff", meat_strategy="feed_only_ruminants",
+                     crop_disruption=rng.pick(["zero"]), ratio_stocks_untouched=rng.pick(["zero", "baseline"]))
+        n = rng.pick([2, 3, 4])
     cs = [j["iso3"]]
     while len(cs) < n:
         c = workload.pick_country(rng)
